@@ -317,6 +317,7 @@ func runC14(c *config) {
 		return
 	}
 	c14Wide(c, newRng(c.seed, "c14wide"))
+	c14Consts(c, newRng(c.seed, "c14const"))
 	for i := 0; i < 3000*c.scale; i++ {
 		np := r.intn(3)
 		named := []bool{r.coin(), r.coin(), r.coin()}
